@@ -6,7 +6,8 @@
 Require Import ZArith List Permutation.
 Import ListNotations.
 Require Import AV.Gen.StoreParams AV.Store.Gc AV.Store.GcFacts AV.Store.Model AV.Store.SizeFacts
-        AV.Store.Facts AV.Store.LiveFacts AV.Store.Steps AV.Store.SweepFacts AV.Store.GcStore.
+        AV.Store.Facts AV.Store.LiveFacts AV.Store.Steps AV.Store.SweepFacts AV.Store.GcStore
+        AV.Store.MarkFacts AV.Store.Final.
 Local Open Scope Z_scope.
 
 (* ---- size layer -------------------------------------------------------------- *)
@@ -57,11 +58,11 @@ Proof. exact AV.Store.Facts.inv_init. Qed.
 Print Assumptions inv_init.
 
 Theorem inv_step : forall t o, Inv t -> op_ok o -> Inv (fst (step t o)).
-Proof. exact AV.Store.GcStore.inv_step. Qed.
+Proof. exact AV.Store.Final.inv_step. Qed.
 Print Assumptions inv_step.
 
 Theorem inv_run : forall ops, Forall op_ok ops -> Inv (run_ops ops).
-Proof. exact AV.Store.GcStore.inv_run. Qed.
+Proof. exact AV.Store.Final.inv_run. Qed.
 Print Assumptions inv_run.
 
 (* busy blocks are pairwise disjoint, listed once, and inside the data area of their section *)
@@ -105,7 +106,7 @@ Print Assumptions alloc_sound.
 Theorem alloc_disjoint : forall t n code base t' a z c,
   Inv t -> 0 < n -> alloc t n code base = (t', OAddr a z c) ->
   forall e, In e (live t) -> blk_disjoint (a, z, new_binfo code) e.
-Proof. exact AV.Store.GcStore.alloc_disjoint. Qed.
+Proof. exact AV.Store.Final.alloc_disjoint. Qed.
 Print Assumptions alloc_disjoint.
 
 (* stoFree: only that block leaves the live set *)
@@ -153,25 +154,62 @@ Proof. exact recode_spec. Qed.
 Print Assumptions recode_only_code.
 
 (* ---- the collector ------------------------------------------------------------------ *)
+(* The marker is modelled as coded in stoGcMarkRange (Model.v: piece_tags = the QmInfo
+   first/follow tags, step_back, cresolve, cmark): for a word: find the section, step
+   BACK over follow-quanta to the first quantum of the piece, skip free / already marked
+   pieces, mark, then scan EVERY word of the piece by a nested call.  Two parameters are
+   regenerated from the source: GcInteriorMax / GcMarkDepthMax (-1 = no bound, as on the
+   current tree).  mark_interior and mark_closure_complete are stated for the modelled
+   marker and proved through the facts GcInteriorMax = -1, GcMarkDepthMax = -1: a source
+   that bounds the stepping back or the nesting makes them stop checking. *)
 
-(* stoGc (mark from the roots + stoGcSweep) keeps the invariant; the live blocks
-   afterwards are exactly the live blocks reachable from the roots, each with its
-   address, size, code, contents and pointer fields *)
+(* (1) an address anywhere inside a busy piece (any offset, any piece size) marks that piece *)
+Theorem mark_interior : forall t e v, Inv t -> sections_disjoint t ->
+  In e (live t) -> abs_range t e v -> cresolve t v = Some (fst (fst e)).
+Proof. exact AV.Store.MarkFacts.mark_interior. Qed.
+Print Assumptions mark_interior.
+
+(* (2) after marking from the roots every piece reachable through ANY word of ANY marked
+   piece, at any depth, is marked (and nothing else is) *)
+Theorem mark_closure_complete : forall t roots a, Inv t -> creach t roots a -> In a (cgc_mark t roots).
+Proof. exact AV.Store.MarkFacts.mark_closure_complete. Qed.
+Print Assumptions mark_closure_complete.
+
+Theorem mark_closure_exact : forall t roots a, Inv t -> (In a (cgc_mark t roots) <-> creach t roots a).
+Proof. exact AV.Store.MarkFacts.mark_closure_exact. Qed.
+Print Assumptions mark_closure_exact.
+
+(* (3) stoGcSweep frees exactly the unmarked pieces, whatever the marks are *)
+Theorem sweep_frees_only_unmarked : forall m t t' o, Inv t -> gc_with m t = (t', o) ->
+  Inv t' /\ forall e, In e (live t') <-> In e (live t) /\ In (fst (fst e)) m.
+Proof. exact AV.Store.Final.sweep_frees_only_unmarked. Qed.
+Print Assumptions sweep_frees_only_unmarked.
+
+(* stoGc (concrete marker + sweep) keeps the invariant; the live blocks afterwards are
+   exactly the live blocks reachable from the roots, each with its address, size, code,
+   contents and pointer fields *)
 Theorem gc_live : forall t roots t' o, Inv t -> gc t roots = (t', o) ->
   Inv t' /\
-  forall e, In e (live t') <-> In e (live t) /\ sreach t roots (fst (fst e)).
-Proof. exact AV.Store.GcStore.gc_live. Qed.
+  forall e, In e (live t') <-> In e (live t) /\ creach t roots (fst (fst e)).
+Proof. exact AV.Store.Final.gc_live. Qed.
 Print Assumptions gc_live.
 
 Theorem gc_keeps_reachable : forall t roots t' o e, Inv t -> gc t roots = (t', o) ->
-  In e (live t) -> sreach t roots (fst (fst e)) -> In e (live t').
+  In e (live t) -> creach t roots (fst (fst e)) -> In e (live t').
 Proof. exact gc_keeps_reachable_store. Qed.
 Print Assumptions gc_keeps_reachable.
 
 Theorem gc_frees_only_unmarked : forall t roots t' o e, Inv t -> gc t roots = (t', o) ->
-  In e (live t') -> In e (live t) /\ sreach t roots (fst (fst e)).
+  In e (live t') -> In e (live t) /\ creach t roots (fst (fst e)).
 Proof. exact gc_frees_only_unmarked_store. Qed.
 Print Assumptions gc_frees_only_unmarked.
+
+(* the same collector with the abstract worklist marker of Gc.v (C09's model) *)
+Theorem gc_live_abstract : forall t roots t' o, Inv t -> gc_with (gc_mark t roots) t = (t', o) ->
+  Inv t' /\
+  forall e, In e (live t') <-> In e (live t) /\ sreach t roots (fst (fst e)).
+Proof. exact AV.Store.GcStore.gc_live_abstract. Qed.
+Print Assumptions gc_live_abstract.
 
 (* a word pointing anywhere into a live block (interior pointer) is resolved to that
    block by the marker, provided the sections occupy disjoint page ranges (the page
